@@ -55,6 +55,46 @@ def eval_hol_expr(t: Term):
 
 def eval_inequality_expr(t):
     """Evaluate inequality."""
+    # The evaluation below uses real semantics. Comparisons between natural
+    # numbers are evaluated exactly instead (subtraction truncates), and other
+    # types are not handled.
+    cmp = t.arg if t.is_not() else t
+    if cmp.is_comb() and len(cmp.args) == 2 and cmp.arg1.get_type() != RealType:
+        if cmp.arg1.get_type() != nat.NatType:
+            return False
+
+        def nat_value(s):
+            if s.is_nat_power():
+                return nat_value(s.arg1) ** nat_value(s.arg)
+            elif s.is_comb('Suc', 1):
+                return nat_value(s.arg) + 1
+            elif s.is_plus():
+                return nat_value(s.arg1) + nat_value(s.arg)
+            elif s.is_times():
+                return nat_value(s.arg1) * nat_value(s.arg)
+            elif s.is_minus():
+                return max(0, nat_value(s.arg1) - nat_value(s.arg))
+            else:
+                return nat.nat_eval(s)
+
+        try:
+            a, b = nat_value(cmp.arg1), nat_value(cmp.arg)
+        except ConvException:
+            return False
+        if t.is_equals():
+            return a == b
+        elif t.is_not() and cmp.is_equals():
+            return a != b
+        elif t.is_greater_eq():
+            return a >= b
+        elif t.is_greater():
+            return a > b
+        elif t.is_less_eq():
+            return a <= b
+        elif t.is_less():
+            return a < b
+        else:
+            return False
     if t.is_equals():
         return eval_hol_expr(t.arg1) == eval_hol_expr(t.arg)
     elif t.is_not() and t.arg.is_equals():
